@@ -551,10 +551,21 @@ impl LazySeq {
         drop(state);
 
         if let Some(gen) = genfn {
-            let obj = gen.call0(py)?;
-            let mut state = mutex.borrow_mut();
-            *state = LazySeqState::Computed(obj.clone_ref(py));
-            Ok(obj.clone_ref(py))
+            match gen.call0(py) {
+                Ok(obj) => {
+                    let mut state = mutex.borrow_mut();
+                    *state = LazySeqState::Computed(obj.clone_ref(py));
+                    Ok(obj.clone_ref(py))
+                }
+                Err(e) => {
+                    // Put the generator back: otherwise the cell stays `Computing`
+                    // forever and every later access sees an empty sequence instead
+                    // of retrying (or re-raising).
+                    let mut state = mutex.borrow_mut();
+                    *state = LazySeqState::Initialized(gen);
+                    Err(e)
+                }
+            }
         } else {
             panic!("Expected a reference to a generator function!");
         }
